@@ -68,8 +68,33 @@ def case(col, variant, auto_update, skip, seed):
     col.add({"sig": "native::simulate", "what": bad, "input": inp} if bad else None)
 
 
+def transformed_case(col, entry, auto_update, seed):
+    """tau ~ N(5, .001) (current 0); sigma ~ LogNormal(loc = Calc(tau), .001) re-parameterised with Var.transform; x ~ N(sigma, .001):
+    the transformed variable's prior sits deeper in the graph than the child's distribution"""
+    import tensorflow_probability.substrates.jax.bijectors as tfb
+    tau = lsl.param(np.float32(0.0), lsl.Dist(tfd.Normal, loc=5.0, scale=0.001), name="tau")
+    loc = lsl.Calc(lambda t: t * 1.0, tau, _name="loc")
+    sigma = lsl.param(np.float32(1.0), lsl.Dist(tfd.LogNormal, loc=loc, scale=0.001), name="sigma")
+    t = sigma.transform(tfb.Exp()) if entry == "instance" else sigma.transform()
+    x = lsl.obs(np.zeros(3, np.float32), lsl.Dist(tfd.Normal, loc=sigma, scale=0.001), name="x")
+    model = lsl.GraphBuilder().add(x).build_model()
+    model.auto_update = auto_update
+    model.simulate(jax.random.PRNGKey(seed))
+    model.update()
+    s_new, t_new, x_new, tau_new = float(model.vars["sigma"].value), float(model.vars[t.name].value), np.asarray(model.vars["x"].value), float(model.vars["tau"].value)
+    ok = abs(tau_new - 5.0) < 0.05 and abs(np.log(s_new) - tau_new) < 0.05 and abs(np.exp(t_new) - s_new) < 1e-2 * s_new and np.all(np.abs(x_new - s_new) < 0.05)
+    col.add(None if ok else {"sig": "native::simulate::transformed", "what": f"tau={tau_new:.3f}, sigma={s_new:.3f} (exp(tau)={np.exp(tau_new):.3f}), x={x_new.round(3).tolist()}: not a joint ancestral sample",
+                             "input": {"transform": entry, "auto_update": auto_update, "seed": seed}})
+
+
 def bounded(tier, seed):
     col = util.Collector()
+    for entry in ("instance", "default"):
+        for au in (True, False):
+            try:
+                transformed_case(col, entry, au, seed + 3)
+            except Exception as e:
+                col.add({"sig": f"native::simulate::exception::{type(e).__name__}", "what": str(e)[:200], "input": {"transform": entry, "auto_update": au}})
     combos = [(v, a, s) for v in ("direct", "calc", "node_calc", "keyword") for a in (True, False) for s in ((), ("mu",), ("y",))]
     if tier == "quick":
         combos = [c_ for c_ in combos if c_[2] == () or c_[0] == "calc"]
@@ -81,5 +106,5 @@ def bounded(tier, seed):
     return {"evaluations": col.evals, "distinct_nontrivial": len(combos),
             "rule": ("BOUNDED: models mu ~ N(1000, .001), log_sigma ~ N(-5, .001) (current 3.0), sigma = exp(log_sigma) cached, y (4x3) ~ N(loc, sigma) with loc = mu directly / through a weak "
                      "variable / through a bare Calc / positional mu with keyword scale; both auto-update settings; skip sets {}, {mu}, {y}: values near the NEW parents, shapes kept, skipped "
-                     f"untouched, nothing outdated after update, same seed same result, result independent of auto_update. seeds {seed}.."),
+                     f"untouched, nothing outdated after update, same seed same result, result independent of auto_update; a hierarchy with a re-parameterised (Var.transform, instance and default bijector) variable in the middle. seeds {seed}.."),
             "samples": [{"variant": "calc", "auto_update": False, "skip": []}], "exhaustive": False, "violations": col.violations}
